@@ -30,6 +30,21 @@ type ctor struct {
 	pool    func() core.Limiter
 }
 
+// flaky is a delegate that may refuse one attempt although it has capacity (a delegate is free to refuse: a
+// partitioned strategy, a limit that just shrank, a racing caller).  It lets a release reach the queue limiter's
+// hand-off while the delegate says no.
+type flaky struct {
+	in     core.Limiter
+	refuse atomic.Bool
+}
+
+func (f *flaky) Acquire(ctx context.Context) (core.Listener, bool) {
+	if f.refuse.CompareAndSwap(true, false) {
+		return nil, false
+	}
+	return f.in.Acquire(ctx)
+}
+
 func inner(capacity int) core.Limiter {
 	dl, err := limiter.NewDefaultLimiter(limit.NewFixedLimit("c11", capacity, nil), 1e9, 1e9, 1e5, 100,
 		strategy.NewPreciseStrategy(capacity), limit.NoopLimitLogger{}, core.EmptyMetricRegistryInstance)
@@ -107,10 +122,12 @@ func scenario(t *testing.T, idx int64, c ctor, r *rand.Rand) {
 		start := time.Now()
 		now := func() time.Duration { return time.Since(start) }
 		var lim core.Limiter
+		var fl *flaky
 		if c.pool != nil {
 			lim = c.pool()
 		} else {
-			lim = c.build(inner(1))
+			fl = &flaky{in: inner(1)}
+			lim = c.build(fl)
 		}
 		holder, ok := lim.Acquire(context.Background())
 		if !ok {
@@ -184,6 +201,38 @@ func scenario(t *testing.T, idx int64, c ctor, r *rand.Rand) {
 					time.Sleep(target - now())
 				}
 				expire()
+			case x < 8 && fl != nil && holder != nil && len(waiting) > 0:
+				// a release whose hand-off attempt the delegate refuses: nobody may be granted and the order of the
+				// backlog must be unaffected; the driver then takes the free unit back so that capacity stays exhausted
+				fl.refuse.Store(true)
+				holder.OnIgnore()
+				holder = nil
+				synctest.Wait()
+				fl.refuse.Store(false)
+				for _, w := range ws {
+					if w.done.Load() && !w.seen {
+						fail("waiter-returned-although-delegate-refused-the-hand-off", rt.J{"waiter": w.id, "ok": w.ok})
+						bad = true
+					}
+				}
+				h, ok := fl.in.Acquire(context.Background())
+				if !ok {
+					fail("free-capacity-refused", rt.J{})
+					bad = true
+					continue
+				}
+				// hold the unit through a listener of the wrapper's own kind so that its completion unblocks the queue
+				h.OnIgnore()
+				h2, ok := lim.Acquire(context.Background())
+				if !ok {
+					fail("free-capacity-refused", rt.J{})
+					bad = true
+					continue
+				}
+				holder = h2
+				synctest.Wait()
+				trace = append(trace, fmt.Sprintf("t=%v release whose hand-off the delegate refused; unit taken back", now()))
+				rt.Count("releases_with_refused_handoff", 1)
 			default: // release
 				if holder == nil {
 					continue
